@@ -243,6 +243,15 @@ func witnessRate() scenario {
 	return scenario{ucfg: cfg, m: 1 << 51, nb: 1, force: true, files: []fileSpec{{ID: id, Counts: []KV{{"foo", 3}}}}}
 }
 
+// a name configured as counter AND as stack with rates on either side of X = 1/2; the file records
+// it both as a plain counter and as a stack title (the shared rate table of finding 13 decides by the
+// last configured rate; any other decision is an ordinary violation)
+func witnessBothKinds(counterRate, stackRate float64) scenario {
+	cfg, id := approvedCfg([]telemetry.CounterConfig{{Name: "foo", Rate: counterRate}}, []telemetry.CounterConfig{{Name: "foo", Rate: stackRate}})
+	out.Note("witness-both-kinds")
+	return scenario{ucfg: cfg, m: 1 << 51, nb: 1, force: true, files: []fileSpec{{ID: id, Counts: []KV{{"foo", 3}, {"foo\nmain.f:1", 2}}}}}
+}
+
 // known finding 14: value 2^63
 func witnessValue() scenario {
 	cfg, id := approvedCfg([]telemetry.CounterConfig{{Name: "foo", Rate: 1}}, nil)
@@ -612,6 +621,10 @@ func main() {
 			caseReport(false, witnessRate())
 		case i == 6:
 			caseReport(false, witnessValue())
+		case i == 7:
+			caseReport(false, witnessBothKinds(1, 0))
+		case i == 8:
+			caseReport(false, witnessBothKinds(0, 1))
 		case i%10 == 9:
 			caseSeq()
 		case i%10 == 4:
